@@ -20,6 +20,7 @@ from mc.vfs import new_store
 
 ID = "C26"
 LEVEL = "model_checking"
+TECHNIQUE = "stateless schedule exploration (iterative preemption bounding, unbounded for pairs in the thorough tier) of real LockDir processes over a transport seam, with an invariant monitor after every step"
 
 DEAD_PID = 4194305
 
